@@ -87,9 +87,16 @@ def run(check, tier):
     import c01_roundtrip as h
     rnd = random.Random(seed())
     for a in (h.QUICK_NUM_IDX if quick else h.NUM_IDX):
-        for n in ((3,) if quick else (1, 2, 3)):
-            fixed = dict(a=a, n=n, menu=h.QUICK_NUM_IDX, wrap=rnd.randrange(3)) if quick else dict(a=a, n=n, wrap=rnd.randrange(3))
-            jobs.append(dict(fn="rt_numeric_seq", fixed=fixed, timeout=t * 2 if quick else 2400,
+        for n in ((3,) if quick else (2, 3)):
+            if quick:
+                fixed = dict(a=a, n=n, menu=h.QUICK_NUM_IDX, wrap=rnd.randrange(3))
+            elif n == 2:
+                fixed = dict(a=a, n=n, wrap=rnd.randrange(3))                      # first member fixed, second over the whole menu
+            else:
+                # three members: the other two range over the quick representatives plus four seeded menu entries (all 21 x 21
+                # continuations per first member take > 15 CPU-minutes per job, 21 jobs)
+                fixed = dict(a=a, n=n, wrap=rnd.randrange(3), menu=sorted(set(h.QUICK_NUM_IDX + rnd.sample(h.NUM_IDX, 4) + [a])))
+            jobs.append(dict(fn="rt_numeric_seq", fixed=fixed, timeout=t * 2 if quick else 1500,
                              key=f"numeric_seq:a={a}"))
     nleaf = len(sc.LEAVES)
     # leaves with a recorded known finding "leaf:<name>:in_container" are left out of the mixed-graph
